@@ -29,12 +29,12 @@ pub fn run(ctx: &mut Ctx) {
             for (n, v) in &hdrs { exp.push(b'\n'); exp.extend(n); exp.extend(b": "); exp.extend(v); }
             exp.extend(b"\n\n");
             let total = exp.len();
-            let mut caps: Vec<String> = vec!["vec".into()];
+            let mut caps: Vec<String> = vec!["vec".into(), "drip1".into(), format!("drip{}", 2 + rng.usize_below(9))];   // drip<k>: a writer accepting k bytes per write call
             for c in 0..=total + 1 { if total <= 48 || c < 16 || c + 8 > total || rng.chance(1, 8) { caps.push(c.to_string()); } }
             for cap in caps {
                 let op = format!("resp.headers {cap} {code} {rarg} {}", pairs_arg(&hdrs));
                 let o = ex(&mut log, &mut im, &op);
-                let fits = cap == "vec" || cap.parse::<usize>().unwrap() >= total;
+                let fits = cap == "vec" || cap.starts_with("drip") || cap.parse::<usize>().unwrap() >= total;
                 let good = if fits { o == format!("ok {total} out={}", hexd(&exp)) } else {
                     o.starts_with("err out=") && { let out = unhex(&o[8..]); exp.starts_with(&out) } };
                 if !good { or.fail(format!("write_headers({code}, {nh} headers) into capacity {cap} (needs {total}): `{}`", &o[..o.len().min(120)]), format!("# case flat-oracle\n{op}"), format!("headers:{code}:{cap}:{total}")); }
@@ -63,10 +63,10 @@ pub fn run(ctx: &mut Ctx) {
         let mut exp: Vec<u8> = format!("Status: {code} {}", st.canonical_reason().unwrap_or("Custom")).into_bytes();
         for (n, v) in &order { exp.push(b'\n'); exp.extend(n); exp.extend(b": "); exp.extend(v); }
         exp.extend(b"\n\n");
-        for cap in ["vec".to_string(), exp.len().to_string(), (exp.len() - 1).to_string(), rng.usize_below(exp.len()).to_string()] {
+        for cap in ["vec".to_string(), "drip1".to_string(), format!("drip{}", 2 + rng.usize_below(9)), exp.len().to_string(), (exp.len() - 1).to_string(), rng.usize_below(exp.len()).to_string()] {
             let op = format!("resp.httph {cap} {code} {rarg} {}", pairs_arg(&order));
             let o = ex(&mut log, &mut im, &op);
-            let fits = cap == "vec" || cap.parse::<usize>().unwrap() >= exp.len();
+            let fits = cap == "vec" || cap.starts_with("drip") || cap.parse::<usize>().unwrap() >= exp.len();
             let good = if fits { o == format!("ok {} out={}", exp.len(), hexd(&exp)) } else { o.starts_with("err out=") && exp.starts_with(&unhex(&o[8..])) };
             if !good { or.fail(format!("http_headers({code}, {nh} headers) capacity {cap}: `{}`", &o[..o.len().min(120)]), format!("# case flat-oracle\n{op}"), format!("http:{code}:{cap}")); }
             or.eval(("http", code, &order, &cap), true);
@@ -77,12 +77,12 @@ pub fn run(ctx: &mut Ctx) {
         let loc: String = match i { 0 => "".into(), 1 => "/".into(), 2 => "https://example.com/foo?q=bar#baz".into(), _ => { let l = rng.usize_below(60); (0..l).map(|_| if rng.chance(1, 10) { 'é' } else { rng.range(0x21, 0x7e) as u8 as char }).collect() } };
         let mut exp = b"Location: ".to_vec(); exp.extend(loc.as_bytes()); exp.extend(b"\n\n");
         let total = exp.len();
-        let mut caps: Vec<String> = vec!["vec".into()];
+        let mut caps: Vec<String> = vec!["vec".into(), "drip1".into(), format!("drip{}", 2 + rng.usize_below(9))];   // drip<k>: a writer accepting k bytes per write call
         for c in 0..=total + 1 { if total <= 40 || c < 14 || c + 6 > total || rng.chance(1, 6) { caps.push(c.to_string()); } }
         for cap in caps {
             let op = format!("resp.redirect {cap} {}", hexd(loc.as_bytes()));
             let o = ex(&mut log, &mut im, &op);
-            let fits = cap == "vec" || cap.parse::<usize>().unwrap() >= total;
+            let fits = cap == "vec" || cap.starts_with("drip") || cap.parse::<usize>().unwrap() >= total;
             let good = if fits { o == format!("ok {total} out={}", hexd(&exp)) } else { o.starts_with("err out=") && exp.starts_with(&unhex(&o[8..])) };
             if !good { or.fail(format!("simple_redirect({loc:?}) capacity {cap}: `{o}`"), format!("# case flat-oracle\n{op}"), format!("redirect:{cap}:{total}")); }
             or.eval(("redir", &loc, &cap), true);
